@@ -6,7 +6,8 @@ LEVEL_TEXT = ('exploration: the real CSSStyleDeclaration and CSSVariablesDeclara
               'checked on every known property name (finite, complete)')
 LEVEL_NOTE = ('bounded: histories longer than the bound, names/values outside the pool (three spellings of one name plus two other names, 13 value kinds) and other serializer '
               'preferences than the defaults (+ keepAllProperties off) are not covered; the model normalises names through a table fixed by construction, not through cssutils')
-TECHNIQUE = ('VC generation + z3 on the real getProperty / getProperties(all=True) (loop invariants, entry lists of any length); the statement as a whole is decided by '
+TECHNIQUE = ('VC generation + z3 on the real getProperty / getProperties(all=True) / removeProperty / __nnames (loop invariants, entry lists of any length) and, modularly against '
+             'those contracts, getPropertyValue / getPropertyPriority / keys / item / __contains__; the statement as a whole is decided by '
              'bounded run-time contracts over exhaustively enumerated operation histories: reference model run in lock-step with the real classes, every observation of the '
              'statement compared after the last step of every sequence (each prefix is an enumerated sequence itself); finite complete enumeration for the DOM names')
 DESIGN_REF = 'DESIGN.md section 3, C10'
@@ -19,6 +20,9 @@ def bounded(ctx):
     c10.variables_histories(ctx)
 
 
+# T1 (PyVC), added later: getPropertyValue / getPropertyPriority (value / priority of an object that getProperty's contract calls effective, else the
+# default), removeProperty returns the effective value (callee contract now the proved one, no longer assumed), __nnames (de-duplicating reversed
+# scan: pairwise different, exactly the normalised names of the Property entries), keys / item / __contains__ against __nnames' contract.
 # T1 (PyVC): CSSStyleDeclaration.getProperty (reversed scan with a loop invariant: the effective property = last !important match, else last
 # match, else None) and getProperties(name, all=True) (filter loop: the result is exactly the matching entries in document order, stated
 # through the ghost count of kept entries) against the ordered-multimap model, for entry lists of any length.
